@@ -9,6 +9,7 @@ Filter token `<f>`: `n` (none) | `s<int>` (size=) | `o<int>` (order=).
   `seq f` / `gseq f` / `dseq f`           -> `node:deg,...` in node order
   `dist f` / `gdist f` / `ddist f`        -> `deg:count,...` in insertion order
   `nbrs x f`                              -> sorted neighbours | `rej`
+  `inc x f`                               -> the incident hyperedges that pass the filter (each sorted) | `rej`
   `bfs x f`, `ncomp x f`                  -> sorted visited set | `rej`
   `cc f`                                  -> components (each sorted) in discovery order
   `conn f`, `ncc f`, `largest f`, `lsize f`, `iso f`, `isiso x f`
@@ -61,6 +62,7 @@ def query (s : St) (f : Filt) : List String → String
   | ["gdist"] => showPairs (degreeDistG (fun (k : Nat × List Nat) => k.2) s.gnodes s.gkeys f)
   | ["ddist"] => showPairs (dirDegreeDist s.dnodes s.dkeys f)
   | ["nbrs", x] => if x.toNat! ∈ s.nodes then showNats (sortNats (neighbors s.es f x.toNat!)) else "rej"
+  | ["inc", x] => if x.toNat! ∈ s.nodes then showNatss ((incident s.es x.toNat! f).map sortNats) else "rej"
   | ["bfs", x] => showOSet (bfsFrom s.nodes s.es f x.toNat!)
   | ["ncomp", x] => showOSet (nodeComponent s.nodes s.es f x.toNat!)
   | ["cc"] => showNatss ((components s.nodes s.es f).map sortNats)
